@@ -31,7 +31,7 @@ class C19(Prop):
     assumptions = ["numba's lowering, its scheduler and the hardware memory model are not modelled; the theorem is about "
                    "the loop semantics the source denotes (partial by nature)",
                    "data-dependent sub-band indices satisfy chan_to_sub[c] < nsubs (nsub | nchans)"]
-    regimes_expected = list(KERNELS)
+    regimes_expected = list(KERNELS) + ["chanstats"]
     budget_s = (240, 1500)
     trusted_extra = ["numba parallel code generation / gufunc scheduler / hardware memory model: exercised by the "
                      "thread-count sweep, not modelled"]
@@ -64,6 +64,10 @@ class C19(Prop):
         for kern in KERNELS:
             cases += [self._case(rng, kern) for _ in range(5 * k)]
             cases.append(self._case(rng, kern, rng.choice(self.SHAPES[-4:])))     # one wide-and-short shape each
+        for shape in ((1, 50000), (2, 40000), (4, 20000)):
+            c = self._case(rng, "moments", shape)
+            c.update(kern="chanstats", mode=rng.choice(("basic", "basic", "full")), reps=1)
+            cases.append(c)
         return cases
 
     def search(self, rng, tier):
@@ -124,6 +128,22 @@ class C19(Prop):
             fn = K.compute_online_moments if kern == "moments" else K.compute_online_moments_basic
             f(fn)(xc.astype(np.float32), mom, 0)
             out = mom
+        elif kern == "chanstats":
+            # the accumulator as a user drives it (ChannelStats.push_data, basic and full), few channels, long VARYING
+            # blocks: one channel is one thread's sequential pass, so the record is bit-identical for every thread count
+            # (the sequential definition = the same call on one thread)
+            import numba
+            from sigpyproc.core.stats import ChannelStats
+            xr = np.random.default_rng(case["dseed"]).integers(0, 256, size=C * T).astype(np.float32)
+            bag = ChannelStats(C, T)
+            keep = numba.get_num_threads()
+            if py:
+                numba.set_num_threads(1)
+            try:
+                bag.push_data(xr, 0, mode=case.get("mode", "basic"))
+            finally:
+                numba.set_num_threads(keep)
+            out = bag.moments
         elif kern == "downsample_1d":
             xf = x.astype(np.float32)
             fn = K.downsample_1d_mean.py_func if py else K.downsample_1d_mean_parallel
@@ -139,7 +159,7 @@ class C19(Prop):
 
     def model_requests(self, case, obs):
         kern, C, T = case["kern"], case["C"], case["T"]
-        if "err" in obs or C * T > self.K_LIMIT or kern.startswith("moments"):
+        if "err" in obs or C * T > self.K_LIMIT or kern.startswith("moments") or kern == "chanstats":
             return []
         x = _inputs(case)
         xs = " ".join(str(int(v)) for v in x)
